@@ -132,9 +132,22 @@ Fixpoint suitable (nf : option (str -> str)) (ms : list meth) (acc : smap handle
       suitable nf r (if is_valid m then sset mn (mk_handler m) acc else acc)
   end.
 
-(* utils.isExported: first rune is upper case (ASCII names) *)
+(* utils.isExported: unicode.IsUpper of the first rune.  Modelled exactly for names whose first rune is
+   ASCII, or a two-byte UTF-8 rune of the Latin-1 capitals (U+00C0..U+00DE without the multiplication
+   sign U+00D7) or the basic Greek capitals (U+0391..U+03A9 without the unassigned U+03A2); every other
+   first rune counts as "not upper case" here and is outside what the harness registers. *)
+Definition upper_rune2 (c d : Z) : bool :=
+  if (194 <=? c) && (c <=? 223) && (128 <=? d) && (d <=? 191) then
+    let r := (c - 192) * 64 + (d - 128) in
+    ((192 <=? r) && (r <=? 222) && negb (r =? 215)) || ((913 <=? r) && (r <=? 937) && negb (r =? 930))
+  else false.
 Definition is_exported_name (s : str) : bool :=
-  match s with c :: _ => (65 <=? c) && (c <=? 90) | [] => false end.
+  match s with
+  | c :: r =>
+      if c <? 128 then (65 <=? c) && (c <=? 90)
+      else match r with d :: _ => upper_rune2 c d | [] => false end
+  | [] => false
+  end.
 
 Definition is_empty {A} (l : list A) : bool := match l with [] => true | _ => false end.
 
